@@ -67,6 +67,8 @@ Fixpoint dset {V} (k : nat) (v : V) (d : list (nat * V)) : list (nat * V) :=
   | [] => [(k, v)]
   | (k', v') :: r => if Nat.eqb k k' then (k, v) :: r else if Nat.ltb k k' then (k, v) :: (k', v') :: r else (k', v') :: dset k v r
   end.
+Fixpoint ddel {V} (k : nat) (d : list (nat * V)) : list (nat * V) :=
+  match d with [] => [] | (k', v) :: r => if Nat.eqb k k' then r else (k', v) :: ddel k r end.
 (* cells: first match wins; an update shadows the older cell *)
 Fixpoint hget {V} (l : N) (h : list (N * list V)) : list V :=
   match h with [] => [] | (l', d) :: r => if N.eqb l l' then d else hget l r end.
@@ -219,6 +221,27 @@ Definition em_nest (s : st) (e : ent) (k sub : nat) (z : Z) : st :=
   let wl := next s in
   let s1 := bump (set_wheap s (hset wl [(sub, z)] (wheap s))) in
   em_edit s1 (refresh s1 e) k (VRef wl).
+
+(* AirborneEMSurvey.set_metadata(key, value) — pitch, roll, yaw and the three offsets: a parameter is stored EITHER as a constant
+   ("<Field> value") OR as a reference to a data property ("<Field> property"); one edit_em_metadata call with both entries,
+   where a None entry removes the key:   float -> {value: x, property: None};  uuid -> {value: None, property: u};
+   None -> {value: None, property: None} *)
+Inductive pval := PConst (z : Z) | PProp (z : Z) | PClear.
+
+Definition dput {V} (k : nat) (ov : option V) (d : list (nat * V)) : list (nat * V) :=
+  match ov with Some v => dset k v d | None => ddel k d end.
+
+Definition em_edit2 (s : st) (e : ent) (k1 : nat) (v1 : option val) (k2 : nat) (v2 : option val) : st :=
+  let '(l, s1) := em_md s e in
+  let s2 := set_heap s1 (hset l (dput k2 v2 (dput k1 v1 (hget l (heap s1)))) (heap s1)) in
+  em_assign s2 (refresh s2 e) l.
+
+Definition em_param (s : st) (e : ent) (kv kp : nat) (v : pval) : st :=
+  match v with
+  | PConst z => em_edit2 s e kv (Some (VZ z)) kp None
+  | PProp z => em_edit2 s e kv None kp (Some (VU (Z.to_N z)))   (* a uuid: not replayed by a copy *)
+  | PClear => em_edit2 s e kv None kp None
+  end.
 
 (* ------------------------------------------------------------------ direct current electrodes *)
 (* Entity.metadata setter: update the existing dict in place, else adopt the argument object; store *)
@@ -408,6 +431,7 @@ Inductive op :=
 | OEdit (a : nat) (k : nat) (z : Z)      (* a scalar survey parameter through entity a (DC: a free metadata key) *)
 | OWave (a : nat) (z : Z)                (* a.waveform = ... (TEM) *)
 | OTiming (a : nat) (z : Z)              (* a.timing_mark = ... (TEM) *)
+| OParam (a : nat) (kv kp : nat) (v : pval)   (* a.pitch / roll / yaw / *_offset = float | uuid | None (airborne) *)
 | ONest (a : nat) (k sub : nat) (z : Z)  (* a.edit_em_metadata({k: {sub: z}}) *)
 | OCrs (a : nat) (znew zdefault : Z)     (* electrode.coordinate_reference_system = {...} *)
 | OUnit (a : nat) (z : Z)                (* a.unit = ... *)
@@ -446,6 +470,11 @@ Definition step (s : st) (o : op) : res st :=
   | OTiming a z =>
       match at_pos s a with
       | Some e => if is_tem (fam e) then Ok (em_timing s e z) else Err EBadOp
+      | None => Err ENoEntity
+      end
+  | OParam a kv kp v =>
+      match at_pos s a with
+      | Some e => if is_dc (fam e) then Err EBadOp else Ok (em_param s e kv kp v)
       | None => Err ENoEntity
       end
   | ONest a k sub z =>
@@ -514,7 +543,11 @@ Definition cdict := list (nat * cval).
 
 Definition canon_val (l : list ent) (w : bool) (v : fval) : cval :=
   match v with
-  | FU u => match pos_of w u l 0 with Some i => CPos i | None => CForeign end
+  | FU u => match pos_of w u l 0 with
+            | Some i => CPos i
+            | None => if (1000 <=? u)%N then CZ (Z.of_N u)   (* the uid of a data property (a value token): only its identity matters *)
+                      else CForeign
+            end
   | FZ z => CZ z | FD d => CD d | FOwn => COwn
   end.
 Definition canon_dict (l : list ent) (w : bool) (d : fdict) : cdict := map (fun kv => (fst kv, canon_val l w (snd kv))) d.
